@@ -2,6 +2,14 @@ from spec import tagging as S
 
 
 def replay(args, outdir):
+    if args['lemma'] == 'L5_job_bookkeeping':
+        a, lemma = args['cex'], args['lemma']
+        import singlecellmultiomics.universalBamTagger.tagging as TG
+        clause = S.check_tagging_job(TG, [a['c0'], a['c1'], a['c2']][:a['n']], [a['v0'], a['v1'], a['v2'], a['v3']])
+        desc = 'molecules per task %r validity %r' % ([a['c0'], a['c1'], a['c2']][:a['n']], [a['v0'], a['v1'], a['v2'], a['v3']])
+        if clause is None:
+            return dict(reproduced=False)
+        return dict(reproduced=True, signature='%s:%s' % (lemma, clause), what='%s: %s' % (clause, desc))
     from vlib import astcut
     import singlecellmultiomics.universalBamTagger.bamtagmultiome as BT
     import singlecellmultiomics.universalBamTagger.tagging as TG
